@@ -766,6 +766,49 @@ impl Sim {
         }
     }
 
+    /// submits an arbitrary, already built packet (C16); the tag is not embedded in the packet
+    pub fn submit_raw(&mut self, packet: gv::OutPacket) -> Option<u32> {
+        if self.tr.dead || self.finished {
+            return None;
+        }
+        let tag = self.next_tag;
+        self.next_tag += 1;
+        let before = self.state();
+        let t = self.t();
+        let (kind, n, res) = match packet {
+            gv::OutPacket::Publish(p) => {
+                let kind = match qos_num(p.qos()) {
+                    0 => Kind::Pub0,
+                    1 => Kind::Pub1,
+                    _ => Kind::Pub2,
+                };
+                (kind, 1, guarded(|| self.eng.submit_publish(t, p, None)))
+            }
+            gv::OutPacket::Subscribe(p) => (Kind::Sub, 0, guarded(|| self.eng.submit_subscribe(t, p, None))),
+            gv::OutPacket::Unsubscribe(p) => (Kind::Unsub, 0, guarded(|| self.eng.submit_unsubscribe(t, p, None))),
+            gv::OutPacket::Disconnect(p) => {
+                let res = guarded(|| {
+                    self.eng.submit_disconnect(t, p);
+                    Ok(())
+                });
+                self.after_call(CallKind::SubmitDisconnect, before, res, 0, false);
+                return None;
+            }
+            _ => return None,
+        };
+        match res {
+            Ok(token) => {
+                self.register(tag, kind, n, token, None, None, before);
+                self.after_call(CallKind::Submit, before, Ok(Ok(())), 0, false);
+                Some(tag)
+            }
+            Err(p) => {
+                self.after_call(CallKind::Submit, before, Err(p), 0, false);
+                None
+            }
+        }
+    }
+
     pub fn do_user_disconnect(&mut self) {
         if self.tr.dead || self.finished {
             return;
@@ -963,7 +1006,7 @@ impl Sim {
         true
     }
 
-    fn send_response(&mut self, p: &Pending, how: RespondHow) {
+    pub fn send_response(&mut self, p: &Pending, how: RespondHow) {
         let v5 = self.cfg.v5;
         let fail = matches!(how, RespondHow::FailReason) && v5;
         let nonce = if p.type_code == 13 || p.type_code == 6 { None } else { self.next_nonce() };
